@@ -118,6 +118,7 @@ pub fn exec(func: &str, a: &mut Args) -> String {
         "epa2" => fu4::exec_epa2(a),
         "epa2c" => fu4::exec_epa2c(a),
         "epa3" => fu4::exec_epa3(a),
+        "epa3c" => fu4::exec_epa3c(a),
         _ => "nofn".into(),
     }
 }
@@ -684,6 +685,15 @@ pub mod fu4 {
             Some((p1, p2, nn)) => format!("{} {} {}", d3::fp(&p1), d3::fp(&p2), d3::fv(&nn)),
         }
     }
+    /// `epa3c`: the real `contact_support_map_support_map(pos12, g1, g2, 1.0)` of parry3d (own GJK + EPA + assembly); the trailing
+    /// simplex arguments (what the library's GJK ends on, recorded by the generator) are read by the model only
+    pub fn exec_epa3c(a: &mut Args) -> String {
+        let (k1, a1, b1, c1) = (a.u(), a.f(), a.f(), a.f()); let (k2, a2, b2, c2) = (a.u(), a.f(), a.f(), a.f());
+        let pos12 = d3::iso(a);
+        let (g1, g2) = (shape3(k1, a1, b1, c1), shape3(k2, a2, b2, c2));
+        let c = crate::p3::query::details::contact_support_map_support_map(&pos12, &*g1, &*g2, 1.0);
+        super::c03::fcontact(&c)
+    }
     pub fn gen3(r: &mut Rng, thorough: bool, v: &mut Vec<(String, String)>) {
         let n = if thorough { 6000 } else { 600 };
         let mut fam = [0usize; 4];
@@ -712,7 +722,8 @@ pub mod fu4 {
                 fam[sx.dimension()] += 1;
                 let mut s = format!("{} {} {}", sh, d3::hiso(&pos12), pts.len());
                 for p in &pts { s += &format!(" {} {}", d3::hp(&p.orig1), d3::hp(&p.orig2)); }
-                v.push(("epa3".into(), s));
+                v.push(("epa3".into(), s.clone()));
+                v.push(("epa3c".into(), s));
             }
         }
         if std::env::var("VERIF_DBG").is_ok() { eprintln!("C02 epa3 families: gjk-dim0={} dim1={} dim2={} dim3={}", fam[0], fam[1], fam[2], fam[3]); }
